@@ -39,7 +39,7 @@ def plain(script):
 def to_line(case):
     cfg, script = case
     return (f'cap={cfg["cap"]} handles={cfg["handles"]} mt={cfg["mt"]} rmin={cfg["rmin"]} rmax={cfg["rmax"]}'
-            + (' rtu=1' if cfg.get('rtu') else '') + ' | '
+            + (' rtu=1' if cfg.get('rtu') else '') + (f' tx0={cfg["tx0"]}' if cfg.get('tx0') else '') + ' | '
             + ' '.join(step_token(s) for s in script))
 
 
@@ -81,7 +81,7 @@ def to_coq(case):
     script = plain(script)
     mt = f'Some {cfg["mt"]}' if cfg['mt'] else 'None'
     return (f'{{| k_cap := {cfg["cap"]}; k_handles := {cfg["handles"]}; k_max_timeouts := {mt}; k_rmin := {cfg["rmin"]}; '
-            f'k_rmax := {cfg["rmax"]}; k_res := {RES}; k_rtu := {"true" if cfg.get("rtu") else "false"}; k_script := [{"; ".join(step_coq(s) for s in script)}] |}}')
+            f'k_rmax := {cfg["rmax"]}; k_res := {RES}; k_rtu := {"true" if cfg.get("rtu") else "false"}; k_tx0 := {cfg.get("tx0", 0)}; k_script := [{"; ".join(step_coq(s) for s in script)}] |}}')
 
 
 def canon(line):
@@ -200,7 +200,7 @@ def spec_failures(case, line):
     if len(set(submitted)) == len(submitted) and not rtu:
         for k, i in enumerate(taken):
             for t, w in zip(txs, wids):
-                if w == i and t != k % 65536:
+                if w == i and t != (cfg.get('tx0', 0) + k) % 65536:
                     bad.append('C11.tx-id-is-not-the-count-of-requests-taken')
     it = iter(submitted)
     if not all(any(w == s for s in it) for w in wids):
@@ -398,7 +398,7 @@ class Sim:
         self.blocked = []
         self.handles = cfg['handles']
         self.enabled = False
-        self.txid = 0
+        self.txid = cfg.get('tx0', 0)
         self.now = 0
         self.tc = 0
         self.rcur = cfg['rmin']
